@@ -439,57 +439,81 @@ func (self *VM) WaitNonConsuming() {
 	}
 }
 
+// Removes the core with the given number from the core list.
+// The new list is computed while the write lock is held: cores which are spawned concurrently must not get lost.
+func (self *VM) removeCore(coreNum uint) {
+	self.Cores.Lock.Lock()
+	defer self.Cores.Lock.Unlock()
+
+	self.Cores.Cores = self.coresWithout(coreNum)
+}
+
+func (self *VM) coresWithout(coreNum uint) []Core {
+	newCores := make([]Core, 0, len(self.Cores.Cores))
+
+	for _, coreIter := range self.Cores.Cores {
+		if coreIter.Corenum == coreNum {
+			continue
+		}
+
+		newCores = append(newCores, coreIter)
+	}
+
+	return newCores
+}
+
+// Returns a snapshot of the core list.
+func (self *VM) coreSnapshot() []Core {
+	self.Cores.Lock.RLock()
+	defer self.Cores.Lock.RUnlock()
+
+	return self.Cores.Cores
+}
+
+// Waits until every core has terminated.
+// If a core terminates with an interrupt, all other cores are canceled and waited for, then the interrupt of this
+// first core is returned. No lock is held when this function returns and no core is left behind.
 func (self *VM) Wait() (coreNum uint, i *value.VmInterrupt) {
 	for {
-		self.Cores.Lock.RLock()
-		for _, core := range self.Cores.Cores {
+		// The lock is not held while the cores are polled: `spawnCore` must be able to make progress.
+		cores := self.coreSnapshot()
+
+		if len(cores) == 0 {
+			break
+		}
+
+		for _, core := range cores {
 			// fmt.Printf("checking core: %d | %v\n", core.Corenum, time.Now())
 
 			select {
 			case i := <-core.SignalHandle:
 				if i == nil {
-					newCores := make([]Core, 0)
+					self.removeCore(core.Corenum)
+				} else {
+					self.Cores.Lock.Lock()
+					(*self.CancelFunc)()
+					self.Cores.Cores = self.coresWithout(core.Corenum)
+					self.Cores.Lock.Unlock()
 
-					for _, coreIter := range self.Cores.Cores {
-						if coreIter.Corenum == core.Corenum {
-							continue
+					// Every remaining core observes the cancelation and hands over its interrupt:
+					// receive all of them so that no core stays blocked on its signal handle forever.
+					for {
+						remaining := self.coreSnapshot()
+						if len(remaining) == 0 {
+							break
 						}
 
-						newCores = append(newCores, coreIter)
+						for _, other := range remaining {
+							<-other.SignalHandle
+							self.removeCore(other.Corenum)
+						}
 					}
-
-					self.Cores.Lock.RUnlock()
-
-					self.Cores.Lock.Lock()
-					self.Cores.Cores = newCores
-					self.Cores.Lock.Unlock()
-
-					self.Cores.Lock.RLock()
-				} else {
-					self.Cores.Lock.RUnlock()
-
-					// TODO: is this OK?
-					self.Cores.Lock.Lock()
-
-					(*self.CancelFunc)()
-
-					self.Cores.Cores = make([]Core, 0)
-					self.Cores.Lock.Unlock()
-
-					self.Cores.Lock.RLock()
 
 					return core.Corenum, i
 				}
 			default:
 			}
 		}
-
-		if len(self.Cores.Cores) == 0 {
-			self.Cores.Lock.RUnlock()
-			break
-		}
-
-		self.Cores.Lock.RUnlock()
 
 		time.Sleep(VMWaitIdleSleep)
 	}
